@@ -286,6 +286,16 @@ class Scheduler:
             self._switch_to(None, first, "begin")
         finally:
             c.sched = None
+            # an unexhausted task generator (dispatch stops after a failure)
+            # must not be finalised later by the garbage collector inside some
+            # traced thread: close it here, in the caller's thread
+            close = getattr(self.iterator, "close", None)
+            if close is not None:
+                try:
+                    close()
+                except Exception:  # noqa: BLE001
+                    pass
+            self.queue[:] = []
         # every worker has exited when the caller gets the baton back, except
         # workers that never ran: release them
         self.shutdown = True
